@@ -112,7 +112,6 @@ func VfC29_GateOrder() {
 //
 //vf:unwind 24
 //vf:bound state ring of size 1..3, index anywhere, wrapped or not, lines of 1 symbolic byte (non-empty, as log.Logger produces); then 2 writes (optionally newline-terminated)
-//vf:nonative
 func VfC29_Ring() {
 	n := 1 + vfChoice("size", 3)
 	l := NewLogWriter(n)
